@@ -152,6 +152,10 @@ func segmentFMP4ReadHeader(r io.ReadSeeker) (*fmp4.Init, time.Duration, error) {
 		return nil, 0, err
 	}
 
+	if mvhd.Timescale == 0 {
+		return nil, 0, fmt.Errorf("invalid mvhd timescale")
+	}
+
 	d := time.Duration(mvhd.DurationV0) * time.Second / time.Duration(mvhd.Timescale)
 
 	// read ftyp and moov
@@ -439,6 +443,8 @@ func segmentFMP4MuxParts(
 			return h.Expand()
 
 		case "traf":
+			tfhd = nil
+			tfdt = nil
 			return h.Expand()
 
 		case "tfhd":
@@ -449,6 +455,10 @@ func segmentFMP4MuxParts(
 			tfhd = box.(*amp4.Tfhd)
 
 		case "tfdt":
+			if tfhd == nil {
+				return nil, fmt.Errorf("tfhd box not found")
+			}
+
 			box, _, err := h.ReadPayload()
 			if err != nil {
 				return nil, err
@@ -466,6 +476,10 @@ func segmentFMP4MuxParts(
 			durationMP4 = durationGoToMp4(duration, track.TimeScale)
 
 		case "trun":
+			if tfhd == nil || tfdt == nil {
+				return nil, fmt.Errorf("tfhd or tfdt box not found")
+			}
+
 			box, _, err := h.ReadPayload()
 			if err != nil {
 				return nil, err
